@@ -859,7 +859,7 @@ def make_ragged(ip, data, shape, enc, lineno):
         return SRaggedObj(fd, shape.n, shape.starts, shape.lens, enc, data.length, contiguous=False, C=shape.C)
     if isinstance(shape, (SArr, list, SymList)):
         lens = as_arr(ip, shape)
-        fl = lens.snapshot()
+        fl = shape.at if isinstance(shape, SymList) else lens.snapshot()      # stable identity: contracts can name the same prefix sums
         C = M.exclusive_prefix(fl, lens.length)
         c.check("%s:ragged.size@L%s" % (c.fname, lineno), C(I(lens.length)) == I(data.length), "safety", lineno,
                 "row lengths sum to the data size")
@@ -1053,6 +1053,15 @@ class STable:
         if n2 is None:
             return SRec(None, **new)
         return STable(new, n2, self.cls)
+
+    def sym_rows(self, ip):
+        """iteration over a table yields one record per row (bnpdataclass, assumed)"""
+        M.use("iterating a table yields its rows as records (bnpdataclass, assumed)")
+        cols = self.cols
+
+        def row(j):
+            return SRec(None, **{k: (v.at(j) if isinstance(v, SArr) else (v.row(j) if hasattr(v, "row") else v)) for k, v in cols.items()})
+        return self.n, row
 
     def replaced(self, kwargs):
         M.use("replace(table, col=value) returns a new table with that column replaced (assumed)")
